@@ -2,10 +2,11 @@ SPECIFICATION Spec
 CONSTANTS
   NConn = 2
   MaxReq = 2
+  MaxReq2 = 1
   Protos <- AllProtos
   TlsModes <- BothBool
-  MakeModes <- BothBool
-  MaxFaults = 2
+  MakeModes <- OnlyFalse
+  MaxFaults = 1
   AsBuiltD8 = FALSE
   GenMode = FALSE
   GenLen = 0
